@@ -4,7 +4,7 @@ from __future__ import annotations
 
 import ast
 
-from ..engine.context import Context, sync_closure
+from ..engine.context import Context, expand, sync_closure
 from ..engine.loader import dotted, walk_expr, walk_own
 from ..engine.partial import PartialProfile
 from ..engine.report import norm_stmt
@@ -412,7 +412,8 @@ def _g2(ctx: Context) -> None:
     exc_ok = False
     for n, c in ctx.nodes_calling_name(tcfg, "set_exception"):
         if c.args:
-            a = c.args[0].func if isinstance(c.args[0], ast.Call) else c.args[0]
+            a0 = expand(tf.node, c.args[0])
+            a = a0.func if isinstance(a0, ast.Call) else a0
             if ctx.resolve_name(tf, a) in ("TimeoutError", "asyncio.TimeoutError"):
                 exc_ok = True
     ck.check("C19.G2", exc_ok, "_async_on_timeout sets asyncio.TimeoutError (the class async_find translates)",
@@ -423,10 +424,11 @@ def _g2(ctx: Context) -> None:
     ok, classes = True, set()
     # normal exits are only returns of result.result()
     rets = [n for n in acfg.nodes if n.kind == "return"]
-    good_ret = all(
-        n.exprs and isinstance(n.exprs[0], ast.Call) and isinstance(n.exprs[0].func, ast.Attribute) and n.exprs[0].func.attr == "result"
-        for n in rets
-    )
+    def _is_result(n) -> bool:
+        e = ctx.deref(acfg, n, n.exprs[0])[1] if n.exprs else None
+        return isinstance(e, ast.Call) and isinstance(e.func, ast.Attribute) and e.func.attr == "result"
+
+    good_ret = all(_is_result(n) for n in rets)
     # the function end is a raise of not-found: the exit node has only return predecessors (through finally copies)
     fall = acfg.find_path(acfg.entry.id, acfg.exit.id, avoid_nodes=[n.id for n in rets])
     ck.check("C19.G2", good_ret and bool(rets) and fall is None,
@@ -579,12 +581,11 @@ def _k1(ctx: Context) -> None:
     q = "aiohomekit.zeroconf.HomeKitService.from_service_info"
     f = ctx.func(q)
     cfg = ctx.cfg(q)
-    rets = [n for n in cfg.nodes if n.kind == "return" and n.exprs and isinstance(n.exprs[0], ast.Call)]
+    rets = [d for d in (ctx.deref(cfg, n, n.exprs[0]) for n in cfg.nodes if n.kind == "return" and n.exprs) if isinstance(d[1], ast.Call)]
     if len(rets) != 1:
         ck.unknown("C19.K1", "from_service_info: expected one constructor return", f.loc())
         return
-    rn = rets[0]
-    call = rn.exprs[0]
+    rn, call = rets[0]
     kw = {k.arg: T.of(cfg, rn, k.value) for k in call.keywords if k.arg}
     pv = sorted(_props_vars(ctx, q))
     if len(pv) != 1:
@@ -662,12 +663,12 @@ def _k1(ctx: Context) -> None:
     q = f"{MD}.HomeKitAdvertisement.from_manufacturer_data"
     f = ctx.func(q)
     cfg = ctx.cfg(q)
-    rets = [n for n in cfg.nodes if n.kind == "return" and n.exprs and isinstance(n.exprs[0], ast.Call)]
+    rets = [d for d in (ctx.deref(cfg, n, n.exprs[0]) for n in cfg.nodes if n.kind == "return" and n.exprs) if isinstance(d[1], ast.Call)]
     if len(rets) != 1:
         ck.unknown("C19.K1", "HomeKitAdvertisement.from_manufacturer_data: expected one constructor return", f.loc())
         return
-    rn = rets[0]
-    kw = {k.arg: strip_sites(T.of(cfg, rn, k.value)) for k in rets[0].exprs[0].keywords if k.arg}
+    rn = rets[0][0]
+    kw = {k.arg: strip_sites(T.of(cfg, rn, k.value)) for k in rets[0][1].keywords if k.arg}
     wv = sorted(_wire_vars(ctx, q))
     if len(wv) != 1:
         ck.unknown("C19.K1", f"from_manufacturer_data: manufacturer payload variable not identified ({wv})", f.loc())
